@@ -13,7 +13,7 @@
      transposes m    the two callables are transposes of each other on function values
      periodic_or_zero bc   boundary condition wrap (periodic) or constant (zero)                     *)
 From CV Require Import Base.Tac Base.LinAlg Base.Cmp Base.QcLin Model.C07_Adj
-  Proofs.C07_Lists Proofs.C07_Geom Proofs.C07_Model Proofs.C07_Conv Proofs.C07_Deconv1 Proofs.C07_Linear Proofs.C07_Defect.
+  Proofs.C07_Lists Proofs.C07_Geom Proofs.C07_Model Proofs.C07_Conv Proofs.C07_Deconv1 Proofs.C07_Linear Proofs.C07_Defect Proofs.C07_Deepen.
 From Coq Require Import QArith Qcanon.
 
 Local Notation flip2 := C07_Adj.flip2.
@@ -337,4 +337,124 @@ Proof.
   - eexists; eexists. split; [vm_compute; reflexivity|]. split; [vm_compute; reflexivity|].
     apply qc_eqb_eq. vm_compute. reflexivity.
   - split; [left; reflexivity | vm_compute; reflexivity].
+Qed.
+
+(* ==== deepening round ================================================================================== *)
+
+(* the step-expansion guard of C07_adjoint_orthogonal is EXACT: every partition (positive step sizes) with a
+   step of more than one node has a matrix model and inputs on which the identity fails *)
+Theorem C07_step_partition_refuted : forall cnt : list nat,
+  Forall (fun k => (0 < k)%nat) cnt -> Exists (fun k => k <> 1%nat) cnt ->
+  exists n A x y, wf_mat n A /\ n = fold_right Nat.add 0%nat cnt /\ length x = length cnt /\ length y = length A /\
+                  adjoint_fails (mat_model n A (GStep cnt) (GId (length A))) x y.
+Proof. exact step_partition_fails. Qed.
+Print Assumptions C07_step_partition_refuted.
+
+(* linear expansions (KLExpansion: par2fun = G, fun2par = Ginv, Ginv (G p) = p by C13 under the dst/idst law):
+   a left inverse can only be the transpose if G preserves inner products; wherever it does not, the
+   identity-matrix model through that geometry fails at x = p, y = G p *)
+Theorem C07_left_inverse_expansion_refuted : forall (np nf : nat) (G Ginv : list (list Qc)) (p : list Qc),
+  wf_mat np G -> length G = nf -> length Ginv = np -> length p = np ->
+  qmatvec Ginv (qmatvec G p) = p ->
+  qdot (qmatvec G p) (qmatvec G p) <> qdot p p ->
+  adjoint_fails (mat_model nf (map (qunit nf) (seq 0 nf)) (GLin np nf G Ginv) (GId nf)) p (qmatvec G p).
+Proof. exact left_inverse_expansion_fails. Qed.
+Print Assumptions C07_left_inverse_expansion_refuted.
+
+(* every representation of the input gives the same map: ndarray / CUQIarray of parameters (own or foreign
+   geometry), and function values (ndarray with is_par=False or CUQIarray) of par2fun(x) -- so the adjoint
+   identity holds whatever the representation; Samples are mapped column by column *)
+Theorem C07_representations : forall (m : lmodel) (v : val),
+  forward_rep m RArrayPar v = forward m v /\ forward_rep m RCuqiPar v = forward m v /\ forward_rep m RCuqiOther v = forward m v /\
+  adjoint_rep m RArrayPar v = adjoint m v /\ adjoint_rep m RCuqiPar v = adjoint m v /\ adjoint_rep m RCuqiOther v = adjoint m v /\
+  forward_rep m RCuqiFun v = forward_rep m RArrayFun v /\ adjoint_rep m RCuqiFun v = adjoint_rep m RArrayFun v /\
+  (forall F, p2f (lm_D m) v = Some F -> forward_rep m RArrayFun F = forward m v) /\
+  (forall F, p2f (lm_R m) v = Some F -> adjoint_rep m RArrayFun F = adjoint m v).
+Proof. exact representations_agree. Qed.
+Print Assumptions C07_representations.
+
+Theorem C07_samples_columnwise : forall (m : lmodel) (r : rep) (cols outs : list val),
+  forward_samples m r cols = Some outs -> Forall2 (fun c o => forward_rep m r c = Some o) cols outs.
+Proof. exact samples_columnwise. Qed.
+Print Assumptions C07_samples_columnwise.
+
+(* function values as input (is_par=False), ANY function value, not only images of par2fun *)
+Theorem C07_adjoint_function_value_inputs : forall m : lmodel,
+  geom_adjoint_pair (lm_D m) -> geom_adjoint_pair (lm_R m) -> transposes m ->
+  forall xs y, length xs = fun_dim (lm_D m) -> length y = par_dim (lm_R m) ->
+  exists fx ys v, forward_rep m RArrayFun (funval (lm_D m) xs) = Some (V1 fx) /\
+                  p2f (lm_R m) (V1 y) = Some (funval (lm_R m) ys) /\ lm_adj m (funval (lm_R m) ys) = Some (funval (lm_D m) v) /\
+                  qdot fx y = qdot xs v.
+Proof. exact adjoint_function_value_inputs. Qed.
+Print Assumptions C07_adjoint_function_value_inputs.
+
+(* a MATRIX applied through image geometries (X |-> A X, any storage orders): the identity holds, every shape *)
+Theorem C07_adjoint_matrix_through_images : forall (n : nat) (A : list (list Qc)) (c : nat) (o o' : C07_Adj.order), wf_mat n A ->
+  forall x y, length x = (n * c)%nat -> length y = (length A * c)%nat ->
+  exists fx ay, forward (mat_model n A (GImage n c o) (GImage (length A) c o')) (V1 x) = Some (V1 fx) /\
+                adjoint (mat_model n A (GImage n c o) (GImage (length A) c o')) (V1 y) = Some (V1 ay) /\
+                length fx = (length A * c)%nat /\ length ay = (n * c)%nat /\ qdot fx y = qdot x ay.
+Proof. exact adjoint_matrix_through_images. Qed.
+Print Assumptions C07_adjoint_matrix_through_images.
+
+(* the repaired T (fixes/C07_transpose_underlying_callables.diff: built from _adjoint_func/_forward_func):
+   consistent for EVERY geometry, no idempotence needed *)
+Theorem C07_transpose_underlying : forall (k : nat) (m : lmodel),
+  (forall v, forward (lmT2 k m) v = adjoint m v /\ adjoint (lmT2 k m) v = forward m v) /\
+  lm_D (lmT2 k m) = lm_R m /\ lm_R (lmT2 k m) = lm_D m /\
+  (forall A, lm_mat m = Some A -> get_matrix (lmT2 k m) = Some (tr k A)) /\
+  (forall v, forward (lmT2 k (lmT2 k m)) v = forward m v).
+Proof. exact transpose_underlying. Qed.
+Print Assumptions C07_transpose_underlying.
+
+(* what the exact transpose is for EVERY PSF size (even included), periodic / zero boundary: the flipped PSF with
+   the result trimmed on the OTHER side (conv1T/conv2T; equal to conv1/conv2 for odd sizes).  The repo's
+   test-suite pins the untrimmed variant for size 20, so this stays a finding, not a fix. *)
+Theorem C07_conv_transpose_any_size : forall (bcm : bc) (P : list Qc) (x y : list Qc),
+  periodic_or_zero bcm -> length x = length y -> qdot (conv1 bcm P x) y = qdot x (conv1T bcm (rev P) y).
+Proof. exact conv1_flipT_adjoint. Qed.
+Print Assumptions C07_conv_transpose_any_size.
+
+Theorem C07_conv2_transpose_any_size : forall (bcm : bc) (S nr nc : nat) (P X Y : list (list Qc)),
+  periodic_or_zero bcm -> wf_mat S P -> length P = S ->
+  wf_mat nc X -> length X = nr -> wf_mat nc Y -> length Y = nr ->
+  fdot (conv2 bcm S nr nc P X) Y = fdot X (conv2T bcm S nr nc (flip2 P) Y).
+Proof. exact conv2_flipT_adjoint. Qed.
+Print Assumptions C07_conv2_transpose_any_size.
+
+Theorem C07_deconv2_trimmed_adjoint : forall (bcm : bc) (S n : nat) (P : list (list Qc)),
+  periodic_or_zero bcm -> wf_mat S P -> length P = S ->
+  forall x y, length x = (n * n)%nat -> length y = (n * n)%nat ->
+  exists fx ay, forward (deconv2_model_gen true bcm S n P) (V1 x) = Some (V1 fx) /\
+                adjoint (deconv2_model_gen true bcm S n P) (V1 y) = Some (V1 ay) /\
+                length fx = (n * n)%nat /\ length ay = (n * n)%nat /\ qdot fx y = qdot x ay.
+Proof. exact deconv2_fixed_adjoint. Qed.
+Print Assumptions C07_deconv2_trimmed_adjoint.
+
+(* one witness per padding x PSF parity: the three non-periodic paddings with an EVEN PSF (odd ones and the
+   even periodic/zero ones are in C07_deconv2_refuted); trimming on the other side does not help them *)
+Theorem C07_deconv2_even_paddings_refuted :
+  (exists P x y, deconv2_fails BEdge 2 3 P x y) /\ (exists P x y, deconv2_fails BSymmetric 2 3 P x y) /\
+  (exists P x y, deconv2_fails BReflect 2 3 P x y) /\
+  (exists P x y, adjoint_fails (deconv2_model_gen true BEdge 3 3 P) x y).
+Proof.
+  repeat split; do 3 eexists;
+    [exact deconv2_edge_even_refuted | exact deconv2_symmetric_even_refuted | exact deconv2_reflect_even_refuted
+    | exact deconv2_fixed_edge_refuted].
+Qed.
+Print Assumptions C07_deconv2_even_paddings_refuted.
+
+(* non-vacuity of the new hypotheses: a partition with a two-node step; an expansion with a left inverse that is
+   not an isometry; a matrix through F- and C-order images; an even PSF under periodic boundary *)
+Example C07_example_deepening :
+  (Forall (fun k => (0 < k)%nat) [1; 2]%nat /\ Exists (fun k => k <> 1%nat) [1; 2]%nat) /\
+  (qmatvec (qmat [[1 # 2; 0]; [0; 1]]%Q) (qmatvec (zm [[2; 0]; [0; 1]]%Z) (zv [1; 1]%Z)) = zv [1; 1]%Z /\
+   qdot (qmatvec (zm [[2; 0]; [0; 1]]%Z) (zv [1; 1]%Z)) (qmatvec (zm [[2; 0]; [0; 1]]%Z) (zv [1; 1]%Z)) <> qdot (zv [1; 1]%Z) (zv [1; 1]%Z)) /\
+  wf_mat 2 (zm [[1; 2]; [0; 1]; [3; 1]]%Z) /\
+  qc_eqb (qdot (conv1 BWrap (zv [1; 2; 3; 4]%Z) (zv [1; 0; 2; 0; 1]%Z)) (zv [0; 1; 1; 3; 2]%Z))
+         (qdot (zv [1; 0; 2; 0; 1]%Z) (conv1T BWrap (rev (zv [1; 2; 3; 4]%Z)) (zv [0; 1; 1; 3; 2]%Z))) = true.
+Proof.
+  split; [split; [repeat constructor | right; left; discriminate]|].
+  split; [split; [apply (list_eqb_spec qc_eqb qc_eqb_eq); vm_compute; reflexivity | apply qc_neq_of_eqb; vm_compute; reflexivity]|].
+  split; [repeat constructor | vm_compute; reflexivity].
 Qed.
